@@ -120,12 +120,19 @@ def apply_file_fault(src_cache, dst_cache, fault):
     """fault = (kind, relative file, arg): delete | empty | truncate(offset) | flip(bit index) | zero(start, length)"""
     shutil.rmtree(dst_cache, ignore_errors=True)
     shutil.copytree(src_cache, dst_cache)
+    apply_in_place(dst_cache, fault)
+
+
+def apply_in_place(cache, fault):
+    """the same fault applied to the directory `cache` itself (a server may be running on it: the file is rewritten in
+    one write(), the loaders open the files anew at every (re)load)"""
     kind, rel, arg = fault
-    p = os.path.join(dst_cache, rel)
+    p = os.path.join(cache, rel)
     if kind == "delete":
         os.unlink(p)
         return
-    data = bytearray(open(p, "rb").read())
+    with open(p, "rb") as f:
+        data = bytearray(f.read())
     if kind == "empty":
         data = bytearray()
     elif kind == "truncate":
